@@ -73,6 +73,7 @@ type translator struct {
 	loopDepth int
 	tmpN      int
 	locals    map[string]bool // parameters and local variables (they shadow package names)
+	refVars   map[string]bool // locals that are pointers into the receiver's store (see recvEffects.ref)
 	funcParam map[string]bool // parameters of function type (nil-able: Option (.. → ..))
 	outParams []string        // pointer parameters assigned through (`*v = e`): returned as extra results
 	curNS     string
@@ -111,6 +112,37 @@ var externalTypes = map[string]string{
 // methods of library objects held in a field of the receiver that change that object:
 // "pair" = returns (object', result), "state" = returns object' (a Go result, if any, is never used)
 var fieldEffects = map[string]string{"Gk.Clock.Stop": "pair", "Gk.Clock.Reset": "state"}
+
+// Library containers held in fields of a receiver that SHARE objects (the in-memory repository's heap and ordered
+// map hold the same *IndexedTask): `recv.field.Method(args)` becomes `lean recv args`, a function of the whole
+// receiver defined in Gk/GenGlueMem.lean. kind: pure (a value), state (the updated receiver), pair (receiver, value).
+// ref: the first result is a POINTER into the store — the translator keeps a local copy and, after every assignment
+// through that variable, writes the copy's `Task` back (`refStore`).
+type recvEffect struct {
+	lean string
+	kind string
+	ref  bool
+}
+
+var recvEffects = map[string]recvEffect{
+	"InMemoryRepository.orderedMap.Get": {"GoMem.omapGet", "pure", true},
+	"InMemoryRepository.orderedMap.Set": {"GoMem.omapSet", "state", false},
+	"InMemoryRepository.heap.Push":      {"GoMem.heapPush", "state", false},
+	"InMemoryRepository.heap.Fix":       {"GoMem.heapFix", "state", false},
+	"InMemoryRepository.heap.Remove":    {"GoMem.heapRemove", "state", false},
+	"InMemoryRepository.heap.Len":       {"GoMem.heapLen", "pure", false},
+	"InMemoryRepository.heap.Peek":      {"GoMem.heapPeek", "pure", false},
+	"InMemoryRepository.orderedMap.Pairs": {"GoMem.omapPairs", "pure", false},
+	"InMemoryRepository.orderedMap.Len":   {"GoMem.omapLen", "pure", false},
+}
+
+// package-level functions that take a field of the receiver by pointer and change it
+var recvFuncs = map[string]recvEffect{"sortabletask.WrapTask": {"GoMem.WrapTask", "pair", false}}
+
+// methods of the receiver that consist of library constructor calls only
+var recvMethods = map[string]string{"InMemoryRepository.init": "GoMem.init"}
+
+var refStore = map[string]string{"InMemoryRepository": "GoMem.storeTask"}
 
 func (t *translator) trType(e ast.Expr) string {
 	switch x := e.(type) {
@@ -327,7 +359,8 @@ var externalFuncs = map[string]string{
 	"time.Millisecond": "Go.time_Millisecond", "time.UTC": "Go.time_UTC",
 	"time.Time{}": "Go.time_Zero",
 	"def.IsExhausted": "Go.def_IsExhausted", "def.IsAlreadyDone": "Go.def_IsAlreadyDone",
-	"def.IsRepositoryErr": "Go.def_IsRepositoryErr",
+	"def.IsRepositoryErr": "Go.def_IsRepositoryErr", "def.ErrInvalidTask": "Go.def_ErrInvalidTask",
+	"time.Date": "Go.time_Date", "time.April": "Go.time_April",
 	"time.ParseDuration": "Go.time_ParseDuration", "strconv.ParseInt": "Go.strconv_ParseInt",
 }
 
@@ -552,6 +585,14 @@ func (t *translator) trCall(c *ast.CallExpr) string {
 			if len(c.Args) == 1 {
 				return t.trExpr(c.Args[0])
 			}
+		case "make":
+			if _, ok := c.Args[0].(*ast.ArrayType); ok {
+				return "[]" // make([]T, 0, cap): an empty slice (a non-zero length is not supported)
+			}
+		case "append":
+			if len(c.Args) == 2 {
+				return "(" + t.trExpr(c.Args[0]) + " ++ [" + t.trExpr(c.Args[1]) + "])"
+			}
 		}
 		if t.funcParam[f.Name] {
 			if len(c.Args) == 0 {
@@ -610,6 +651,9 @@ func (t *translator) trCall(c *ast.CallExpr) string {
 			}
 			t.fail(c, "unsupported external function %s", q)
 		}
+		if rc, key, ok := t.recvFieldKey(c); ok && recvEffects[key].kind == "pure" {
+			return "(" + recvEffects[key].lean + " " + leanIdent(t.recv) + t.trArgs(rc.Args) + ")"
+		}
 		// method call: Lean resolves it by the receiver's type
 		recv := t.trExpr(f.X)
 		return "((" + recv + ")." + leanIdent(f.Sel.Name) + t.trArgs(c.Args) + ")"
@@ -631,7 +675,8 @@ func (t *translator) findTypeAnywhere(name string) bool {
 
 type cont struct {
 	// what a fall-through at the end of the list means
-	kind string // "end" (function end), "loop" (continue with the next element)
+	kind string // "end" (function end), "loop" (continue with the next element), "fold" (yield the accumulator)
+	vars string // fold: the accumulator pattern
 	rest []ast.Stmt
 	next *cont
 }
@@ -640,6 +685,7 @@ func (t *translator) resetFunc() {
 	t.recv, t.recvMut, t.nres, t.optPtr, t.loopDepth, t.tmpN = "", false, 0, map[string]bool{}, 0, 0
 	t.locals = map[string]bool{}
 	t.funcParam = map[string]bool{}
+	t.refVars = map[string]bool{}
 	t.outParams = nil
 }
 
@@ -685,6 +731,8 @@ func (t *translator) trStmts(stmts []ast.Stmt, k *cont, d int) string {
 		switch k.kind {
 		case "loop":
 			return ind(d) + "none"
+		case "fold":
+			return ind(d) + k.vars
 		default:
 			return t.trStmts(k.rest, k.next, d)
 		}
@@ -806,12 +854,49 @@ func (t *translator) trStmts(stmts []ast.Stmt, k *cont, d int) string {
 			t.fail(x, "nested range loops")
 		}
 		t.locals[v.Name] = true
+		if !hasReturn(x.Body) {
+			// a loop that only updates variables declared outside it (and / or the receiver): a left fold
+			vars := t.foldVars(x.Body)
+			if len(vars) == 0 {
+				t.fail(x, "range loop without any effect")
+			}
+			acc := vars[0]
+			if len(vars) > 1 {
+				acc = "(" + strings.Join(vars, ", ") + ")"
+			}
+			body := t.trStmts(x.Body.List, &cont{kind: "fold", vars: acc}, d+2)
+			var b strings.Builder
+			b.WriteString(ind(d) + "let " + acc + " := Go.rangeFold " + t.trExpr(x.X) + " " + acc + " (fun " + acc + " " + leanIdent(v.Name) + " =>\n" + body + ")\n")
+			b.WriteString(t.trStmts(rest, k, d))
+			return b.String()
+		}
 		body := t.trStmts(x.Body.List, &cont{kind: "loop"}, d+2)
 		var b strings.Builder
 		b.WriteString(ind(d) + "match Go.rangeFirst " + t.trExpr(x.X) + " (fun " + leanIdent(v.Name) + " =>\n" + body + ") with\n")
 		b.WriteString(ind(d) + "| some r => r\n")
 		b.WriteString(ind(d) + "| none =>\n" + t.trStmts(rest, k, d+1))
 		return b.String()
+	case *ast.ForStmt:
+		// for pair := recv.f.Oldest(); pair != nil; pair = pair.Next() { … }  ≡  range over the pairs, oldest first
+		if as, ok := x.Init.(*ast.AssignStmt); ok && len(as.Lhs) == 1 && len(as.Rhs) == 1 && x.Post != nil {
+			if id, ok := as.Lhs[0].(*ast.Ident); ok {
+				if c, ok := as.Rhs[0].(*ast.CallExpr); ok {
+					if sel, ok := c.Fun.(*ast.SelectorExpr); ok && sel.Sel.Name == "Oldest" {
+						cond, okc := x.Cond.(*ast.BinaryExpr)
+						post, okp := x.Post.(*ast.AssignStmt)
+						if okc && okp && cond.Op == token.NEQ && exprString(cond.X) == id.Name && exprString(cond.Y) == "nil" &&
+							len(post.Lhs) == 1 && exprString(post.Lhs[0]) == id.Name {
+							if pc, ok := post.Rhs[0].(*ast.CallExpr); ok && exprString(pc.Fun) == id.Name+".Next" {
+								rng := &ast.RangeStmt{Key: ast.NewIdent("_"), Value: id, Tok: token.DEFINE,
+									X: &ast.CallExpr{Fun: &ast.SelectorExpr{X: sel.X, Sel: ast.NewIdent("Pairs")}}, Body: x.Body}
+								return t.trStmts(append([]ast.Stmt{rng}, rest...), k, d)
+							}
+						}
+					}
+				}
+			}
+		}
+		t.fail(x, "unsupported for statement")
 	case *ast.DeferStmt:
 		if isMutexStmt(x.Call, t.recv) {
 			return t.trStmts(rest, k, d) // lock discipline is checked by `gkh srcfacts`, not modelled here
@@ -899,6 +984,56 @@ func (t *translator) fieldCall(e ast.Expr) (call *ast.CallExpr, field, ftype, me
 	return
 }
 
+// recvFieldKey: for `recv.f.M(args)` the key "RecvType.f.M".
+func (t *translator) recvFieldKey(e ast.Expr) (*ast.CallExpr, string, bool) {
+	c, ok := e.(*ast.CallExpr)
+	if !ok {
+		return nil, "", false
+	}
+	sel, ok := c.Fun.(*ast.SelectorExpr)
+	if !ok {
+		return nil, "", false
+	}
+	fs, ok := sel.X.(*ast.SelectorExpr)
+	if !ok {
+		return nil, "", false
+	}
+	id, ok := fs.X.(*ast.Ident)
+	if !ok || t.recv == "" || id.Name != t.recv {
+		return nil, "", false
+	}
+	key := t.recvType + "." + fs.Sel.Name + "." + sel.Sel.Name
+	if _, ok := recvEffects[key]; !ok {
+		return nil, "", false
+	}
+	return c, key, true
+}
+
+// recvFuncCall: a call of a package-level function that changes a field of the receiver handed to it.
+func (t *translator) recvFuncCall(e ast.Expr) (c *ast.CallExpr, eff recvEffect, args []ast.Expr, ok bool) {
+	c, isCall := e.(*ast.CallExpr)
+	if !isCall {
+		return
+	}
+	sel, isSel := c.Fun.(*ast.SelectorExpr)
+	if !isSel {
+		return
+	}
+	eff, found := recvFuncs[exprString(sel)]
+	if !found || t.recv == "" {
+		return
+	}
+	for _, a := range c.Args {
+		if s2, isS := a.(*ast.SelectorExpr); isS {
+			if id, isId := s2.X.(*ast.Ident); isId && id.Name == t.recv {
+				continue // the threaded field
+			}
+		}
+		args = append(args, a)
+	}
+	return c, eff, args, true
+}
+
 func isMutexStmt(e ast.Expr, recv string) bool {
 	c, ok := e.(*ast.CallExpr)
 	if !ok {
@@ -957,9 +1092,44 @@ func (t *translator) lhsUpdate(lhs ast.Expr, val string) (root string, rendered 
 	return root, build(root, path)
 }
 
+func rootIdent(e ast.Expr) string {
+	for {
+		switch x := e.(type) {
+		case *ast.SelectorExpr:
+			e = x.X
+		case *ast.StarExpr:
+			e = x.X
+		case *ast.ParenExpr:
+			e = x.X
+		case *ast.Ident:
+			return x.Name
+		default:
+			return ""
+		}
+	}
+}
+
 func (t *translator) trSimple(s ast.Stmt, d int) string {
 	switch x := s.(type) {
 	case *ast.AssignStmt:
+		// v, ok := recv.f.Get(k) where the first result is a pointer into the store
+		if len(x.Rhs) == 1 {
+			if _, key, ok := t.recvFieldKey(x.Rhs[0]); ok && recvEffects[key].ref {
+				if id, ok := x.Lhs[0].(*ast.Ident); ok {
+					t.refVars[id.Name] = true
+				}
+			}
+			// w := pkg.F(args, &recv.field): the receiver is threaded
+			if _, eff, args, ok := t.recvFuncCall(x.Rhs[0]); ok && len(x.Lhs) == 1 && eff.kind == "pair" {
+				r := leanIdent(t.recv)
+				if id, ok := x.Lhs[0].(*ast.Ident); ok {
+					if x.Tok == token.DEFINE {
+						t.locals[id.Name] = true
+					}
+					return ind(d) + "let (" + r + ", " + leanIdent(id.Name) + ") := (" + eff.lean + " " + r + t.trArgs(args) + ")\n"
+				}
+			}
+		}
 		if x.Tok == token.DEFINE {
 			defer func() { // the new names are in scope after the statement
 				for _, l := range x.Lhs {
@@ -1023,6 +1193,13 @@ func (t *translator) trSimple(s ast.Stmt, d int) string {
 				// value receivers and parameters may be reassigned freely (they are copies)
 			}
 			b.WriteString(ind(d) + "let " + root + " := " + r + "\n")
+			if goRoot := rootIdent(x.Lhs[i]); goRoot != "" && t.refVars[goRoot] {
+				// the variable is a pointer into the receiver's store: write the change back
+				if st, ok := refStore[t.recvType]; ok {
+					rv := leanIdent(t.recv)
+					b.WriteString(ind(d) + "let " + rv + " := (" + st + " " + rv + " " + root + ")\n")
+				}
+			}
 		}
 		return b.String()
 	case *ast.DeclStmt:
@@ -1044,9 +1221,23 @@ func (t *translator) trSimple(s ast.Stmt, d int) string {
 		}
 		return b.String()
 	case *ast.ExprStmt:
+		if rc, key, ok := t.recvFieldKey(x.X); ok && recvEffects[key].kind == "state" {
+			r := leanIdent(t.recv)
+			return ind(d) + "let " + r + " := (" + recvEffects[key].lean + " " + r + t.trArgs(rc.Args) + ")\n"
+		}
 		if c, field, ftype, m, ok := t.fieldCall(x.X); ok && fieldEffects[ftype+"."+m] == "state" {
 			r := leanIdent(t.recv)
 			return ind(d) + "let " + r + " := { " + r + " with " + field + " := ((" + r + "." + field + ")." + m + t.trArgs(c.Args) + ") }\n"
+		}
+		// r.init(): library constructors only (new heap, new ordered map, new counter) — a glue function
+		if c, ok := x.X.(*ast.CallExpr); ok {
+			if sel, ok := c.Fun.(*ast.SelectorExpr); ok {
+				if id, ok := sel.X.(*ast.Ident); ok && id.Name == t.recv {
+					if g, ok := recvMethods[t.recvType+"."+sel.Sel.Name]; ok {
+						return ind(d) + "let " + leanIdent(t.recv) + " := (" + g + " " + leanIdent(t.recv) + t.trArgs(c.Args) + ")\n"
+					}
+				}
+			}
 		}
 		// a call for its effect on the receiver: x.m(args) where Type.m is a mutating method
 		if c, ok := x.X.(*ast.CallExpr); ok {
@@ -1144,6 +1335,36 @@ func (t *translator) outParamsOf(fd *ast.FuncDecl) []string {
 	return out
 }
 
+// writesThroughRef: the body assigns through a variable that points into the receiver's store.
+func (t *translator) writesThroughRef(body *ast.BlockStmt) bool {
+	refs := map[string]bool{}
+	found := false
+	ast.Inspect(body, func(n ast.Node) bool {
+		as, ok := n.(*ast.AssignStmt)
+		if !ok {
+			return true
+		}
+		if len(as.Rhs) == 1 {
+			if _, key, ok := t.recvFieldKey(as.Rhs[0]); ok && recvEffects[key].ref {
+				if id, ok := as.Lhs[0].(*ast.Ident); ok {
+					refs[id.Name] = true
+				}
+				return true
+			}
+		}
+		for _, l := range as.Lhs {
+			if _, isId := l.(*ast.Ident); isId {
+				continue
+			}
+			if refs[rootIdent(l)] {
+				found = true
+			}
+		}
+		return true
+	})
+	return found
+}
+
 func (t *translator) callsMutating(body *ast.BlockStmt, recv, rt string) bool {
 	found := false
 	ast.Inspect(body, func(n ast.Node) bool {
@@ -1155,10 +1376,79 @@ func (t *translator) callsMutating(body *ast.BlockStmt, recv, rt string) bool {
 			if id, ok := sel.X.(*ast.Ident); ok && id.Name == recv && t.mutating[rt+"."+sel.Sel.Name] {
 				found = true
 			}
+			if fs, ok := sel.X.(*ast.SelectorExpr); ok {
+				if id, ok := fs.X.(*ast.Ident); ok && id.Name == recv {
+					if eff, ok := recvEffects[rt+"."+fs.Sel.Name+"."+sel.Sel.Name]; ok && eff.kind != "pure" {
+						found = true
+					}
+				}
+			}
+			if _, ok := recvFuncs[exprString(sel)]; ok {
+				found = true
+			}
+			if id, ok := sel.X.(*ast.Ident); ok && id.Name == recv {
+				if _, ok := recvMethods[rt+"."+sel.Sel.Name]; ok {
+					found = true
+				}
+			}
 		}
 		return true
 	})
 	return found
+}
+
+func hasReturn(body *ast.BlockStmt) bool {
+	found := false
+	ast.Inspect(body, func(n ast.Node) bool {
+		switch n.(type) {
+		case *ast.ReturnStmt:
+			found = true
+		case *ast.FuncLit:
+			return false
+		}
+		return true
+	})
+	return found
+}
+
+// foldVars: the variables a fold-loop body updates that live outside it: the receiver (when the body changes it)
+// first, then outer locals in order of first assignment.
+func (t *translator) foldVars(body *ast.BlockStmt) []string {
+	var vars []string
+	seen := map[string]bool{}
+	add := func(n string) {
+		if !seen[n] {
+			seen[n] = true
+			vars = append(vars, leanIdent(n))
+		}
+	}
+	if t.recv != "" && (assignsTo(body, t.recv) || t.callsMutating(body, t.recv, t.recvType) || t.writesThroughRef(body)) {
+		add(t.recv)
+	}
+	declared := map[string]bool{}
+	ast.Inspect(body, func(n ast.Node) bool {
+		as, ok := n.(*ast.AssignStmt)
+		if !ok {
+			return true
+		}
+		for _, l := range as.Lhs {
+			id := rootIdent(l)
+			if id == "" || id == "_" {
+				continue
+			}
+			if as.Tok == token.DEFINE {
+				if _, isId := l.(*ast.Ident); isId {
+					declared[id] = true
+					continue
+				}
+			}
+			if !declared[id] && t.locals[id] && id != t.recv {
+				add(id)
+			}
+		}
+		return true
+	})
+	return vars
 }
 
 func assignsTo(body *ast.BlockStmt, recv string) bool {
@@ -1214,7 +1504,7 @@ func (t *translator) trFunc(f *ast.File, it glItem) string {
 		t.locals[rn] = true
 		params = append(params, "("+leanIdent(rn)+" : "+rt+")")
 		name = rt + "." + name
-		if ptrRecv && (assignsTo(fd.Body, rn) || t.callsMutating(fd.Body, rn, rt)) {
+		if ptrRecv && (assignsTo(fd.Body, rn) || t.callsMutating(fd.Body, rn, rt) || t.writesThroughRef(fd.Body)) {
 			t.recvMut = true
 			t.mutating[rt+"."+fd.Name.Name] = true
 		}
@@ -1410,6 +1700,23 @@ func init() {
 			it("mutator/randomize_shceduled_at.go", "func", "parseDur", "DecodeRandomizeScheduledAt"),
 			it("mutator/scheduled_at_now.go", "type", "ScheduleAtNow"),
 			it("mutator/scheduled_at_now.go", "func", "DecodeScheduleAtNow", "ScheduleAtNow.Mutate"),
+		),
+	})
+}
+
+func init() {
+	f := "repository/inmemory/repository.go"
+	glUnits = append(glUnits, glUnit{
+		out: "Gk/Gen/Inmemory.lean", ns: "Inmemory", pre: []string{"Gk.GenGlueMem"},
+		items: cat(
+			// the struct itself is the glue type: heap and ordered map share their objects (Gk.Mem)
+			[]glItem{{kind: "lean", name: "abbrev InMemoryRepository := Gk.GoMem"}},
+			it(f, "var", "validTask"),
+			it(f, "func", "InMemoryRepository.AddTask", "InMemoryRepository.GetById", "InMemoryRepository.UpdateById",
+				"InMemoryRepository.Cancel", "InMemoryRepository.MarkAsDispatched", "InMemoryRepository.MarkAsDone",
+				"InMemoryRepository.GetNext"),
+			it("repository/inmemory/io.go", "type", "KeyValue"),
+			it("repository/inmemory/io.go", "func", "InMemoryRepository.Save", "InMemoryRepository.Load"),
 		),
 	})
 }
